@@ -20,7 +20,8 @@ SPEC = dict(
     assumptions=["filler contains no digits/upper-case letters (they could extend a version or form a part name); "
                  "R1 proves every layout unambiguous before the real code runs"],
     required=["updates_checked", "eol:LF", "eol:CRLF", "eol:CR", "eol:mixed", "locale_subprocess_runs", "bom_files",
-              "unconfigured_files_checked", "k04_evaluations", "no_final_newline_files", "legacy_updates_checked"],
+              "unconfigured_files_checked", "k04_evaluations", "no_final_newline_files", "legacy_updates_checked",
+              "overlap_cases"],
     anchors=[("rewrite", "detect_line_sep"), ("v2rewrite", "rfd_from_content"), ("v2rewrite", "rewrite_files"),
              ("v2rewrite", "iter_rewritten"), ("v2rewrite", "rewrite_lines")],
 )
@@ -29,7 +30,27 @@ EOLS = ("\n", "\r\n", "\r", "mixed")
 ASCII_ENV = {"LC_ALL": "C", "LANG": "C", "PYTHONUTF8": "0", "PYTHONCOERCECLOCALE": "0", "PYTHONIOENCODING": None}
 
 
+OVERLAP = [
+    # (version pattern, current, update args, expected new) - bumps that change the LENGTH of the version text
+    ("MAJOR.MINOR.PATCH", "1.9.0", ["--minor"], "1.10.0"),
+    ("MAJOR.MINOR.PATCH", "9.99.99", ["--major"], "10.0.0"),
+    ("vMAJOR.MINOR[.PATCH][-TAG]", "v1.2.3-alpha", ["--tag", "final"], "v1.2.3"),
+    ("vMAJOR.MINOR[.PATCH][-TAG]", "v1.2", ["--patch", "--tag", "beta"], "v1.2.1-beta"),
+]
+OVERLAP_DECOR = [("releases/tag/", "/docs"), ("pkg==", "; extra"), ('version="', '" # pinned'), ("<", ">"), ("v=", "=end")]
+
+
 def cases(ctx):
+    k = 0
+    reps = 1 if ctx.quick else 12
+    for rep in range(reps):
+        for oi in range(len(OVERLAP)):
+            for di in range(len(OVERLAP_DECOR)):
+                for order in (0, 1):
+                    for eol in ("\n", "\r\n", "\r"):
+                        if ctx.mine(k):
+                            yield {"kind": "overlap", "o": oi, "d": di, "order": order, "eol": eol, "rep": rep}
+                        k += 1
     n = ctx.size(1600, 40000)
     nsub = ctx.size(48, 2400)
     for i in range(n):
@@ -68,7 +89,44 @@ def run_legacy(ctx, case, R, mods):
         harness.rm_dir(d)
 
 
+def run_overlap(ctx, case):
+    """Two patterns whose matches OVERLAP on one line (prefix-decorated and suffix-decorated {version} around the
+    same occurrence), each also matching alone elsewhere, in both configuration orders, with a bump that changes
+    the length of the version: exactly the version texts change, every other byte stays."""
+    vp, cur, uargs, new = OVERLAP[case["o"]]
+    pre, suf = OVERLAP_DECOR[case["d"]]
+    eol = case["eol"]
+    p1, p2 = pre + "{version}", "{version}" + suf
+    pats = [p1, p2] if case["order"] == 0 else [p2, p1]
+    lines = ["intro ünï", f"both: x {pre}{cur}{suf} y", "filler", f"only first: {pre}{cur} .", "",
+             f"only second: {cur}{suf} .", "tail without newline"]
+    text = eol.join(lines)
+    cfg = (f'[bumpver]\ncurrent_version = "{cur}"\nversion_pattern = "{vp}"\n\n[bumpver.file_patterns]\n'
+           '"bumpver.toml" = [\'current_version = "{version}"\']\n"doc.txt" = ['
+           + ", ".join(projects.toml_str(x) for x in pats) + "]\n")
+    d = harness.new_project({"bumpver.toml": cfg, "doc.txt": text.encode("utf-8"), "NOTES.bin": b"\xff\xfe" + cur.encode()})
+    try:
+        res = harness.invoke(["update", "--no-fetch"] + uargs, cwd=d)
+        after = harness.snapshot(d)
+        ctx.count("overlap_cases")
+        ctx.evaluated(("overlap", vp, case["d"], case["order"], eol), sample={"patterns": pats, "line": lines[1], "argv": res.args})
+        if res.exit_code != 0 or res.record_value("New Version: ") != new:
+            ctx.violation("other:overlap_update_failed", f"patterns {pats} on {lines[1]!r}: exit {res.exit_code}, "
+                          f"announced {res.record_value('New Version: ')!r} (expected {new!r}): {res.errors()[-2:]}", case=case)
+            return
+        want = text.replace(cur, new).encode("utf-8")
+        if after["doc.txt"] != want:
+            ctx.violation("other:overlapping_matches_corrupt_the_line", f"patterns {pats} (order {case['order']}): expected "
+                          f"{want!r}, got {after['doc.txt']!r}", case=case)
+        if after["NOTES.bin"] != b"\xff\xfe" + cur.encode():
+            ctx.violation("other:unconfigured_file_touched", "NOTES.bin", case=case)
+    finally:
+        harness.rm_dir(d)
+
+
 def run_case(ctx, case):
+    if case.get("kind") == "overlap":
+        return run_overlap(ctx, case)
     R = random.Random(case["pseed"])
     mods = updates.bvmods()
     contracts.install_k04()
